@@ -128,9 +128,20 @@ def run_generation(ctx, tname, mt, mod, state, seq, both_contexts, gen):
     from rv.api import Project, Synth, read_sunvox_file
     from io import BytesIO
 
+    import rv.errors
+
     synth_back = None
-    for name, v in seq:
-        setattr(mod, name, v)
+    for k_, (name, v) in enumerate(seq):
+        # what an option holds does not depend on whether out-of-range controller values currently raise or
+        # only warn: every third assignment is made with that process-wide switch off
+        lenient = (k_ + len(seq)) % 3 == 2
+        prev_flag = rv.errors.RAISE_CONTROLLER_VALUE_ERRORS
+        if lenient:
+            rv.errors.RAISE_CONTROLLER_VALUE_ERRORS = False
+        try:
+            setattr(mod, name, v)
+        finally:
+            rv.errors.RAISE_CONTROLLER_VALUE_ERRORS = prev_flag
         model_apply(mt, state, name, v)
         for o in mt.options:
             got = getattr(mod, o.name)
